@@ -335,15 +335,26 @@ Qed.
 Lemma box_lt_head m lo x rest : box_lt m -> mb_box m = (lo, x) :: rest -> lo < mb_nsent m.
 Proof. intros H E. apply (H lo x). rewrite E. left. reflexivity. Qed.
 
+Lemma has_msg_insert_mono b k mg x : has_msg b x = true -> has_msg (insert k mg b) x = true.
+Proof.
+  unfold has_msg. induction b as [|[k' m'] t IH]; cbn [insert get_msg]; [discriminate|].
+  destruct (k <? k').
+  - cbn [get_msg]. destruct (k =? x); auto.
+  - cbn [get_msg]. destruct (k' =? x); auto.
+Qed.
+
 Lemma can_fetch_push m mg :
   box_lt m -> mb_can_fetch (push_box m (insert (mb_nsent m) mg (mb_box m))) = true -> mb_can_fetch m = true.
 Proof.
   intros Hlt. unfold mb_can_fetch. cbn [mb_killed mb_box mb_subs push_box].
   destruct (mb_killed m); auto.
-  destruct (mb_box m) as [|[lo x] rest] eqn:Eb.
-  - cbn [insert]. destruct (existsb _ _); auto. discriminate.
-  - pose proof (box_lt_head m lo x rest Hlt Eb) as Hlo. cbn [insert].
-    destruct (mb_nsent m <? lo) eqn:E; [apply Nat.ltb_lt in E; lia|]. auto.
+  destruct (existsb (sb_waits_in (mb_box m)) (mb_subs m)) eqn:E.
+  - apply existsb_exists in E. destruct E as [s [Hs Hw]].
+    replace (existsb (sb_waits_in (insert (mb_nsent m) mg (mb_box m))) (mb_subs m)) with true;
+      [intros H; exact H|].
+    symmetry. apply existsb_exists. exists s. split; auto.
+    unfold sb_waits_in in *. destruct (sb_wait s); auto. apply has_msg_insert_mono. auto.
+  - destruct (existsb (sb_waits_in (insert (mb_nsent m) mg (mb_box m))) (mb_subs m)); [discriminate | auto].
 Qed.
 
 Lemma sc_push m mg :
